@@ -2,6 +2,7 @@ package main
 
 import (
 	"fmt"
+	"go/types"
 	"sort"
 	"strings"
 
@@ -130,6 +131,87 @@ func checkC10(p *Prog, r *Report) {
 			r.Check(ok, kp("WIRE", "GetKVStoreKey=keys"), "the mounted map is the map the keepers took their keys from", p.FnPos(gk), "returns appKeepers.keys", "GetKVStoreKey does not return the keys map")
 		}
 	}
+	// D2b persistent stores only: nothing of type *MemoryStoreKey / *TransientStoreKey is handed to the module's own keepers, and the
+	// module's keepers never open a transient store. A memory store is empty after every restart and a transient store after every
+	// commit, so state kept there differs between a restarted node and one that kept running.
+	nArgs, nCtl := 0, 0
+	for _, fn := range p.ModFuncs {
+		if InPkgs(fn, "types/testsuite") {
+			continue
+		}
+		for _, cs := range callSites(fn) {
+			if strings.HasSuffix(cs.Name, "types.Context).TransientStore") && !InPkgs(fn, "app") {
+				r.Fail(kp("STATE", "transient-store-use:"+FuncName(fn)), "module state lives in committed KV stores only", p.Pos(cs.Instr.Pos()),
+					FuncName(fn)+" opens a transient store: its content is dropped at every commit and is empty after a restart")
+			}
+			if (strings.HasSuffix(cs.Name, "types.NewMemoryStoreKey") || strings.HasSuffix(cs.Name, "types.NewTransientStoreKey")) && !InPkgs(fn, "app") {
+				r.Fail(kp("STATE", "non-persistent-key-created:"+FuncName(fn)), "module state lives in committed KV stores only", p.Pos(cs.Instr.Pos()),
+					FuncName(fn)+" creates a memory/transient store key")
+			}
+			if cs.Callee == nil || !InModule(cs.Callee) || InPkgs(cs.Callee, "app") {
+				for _, a := range cs.Instr.Common().Args {
+					if nonPersistentKeyType(a) != "" {
+						nCtl++ // control: SDK keepers (capability, params) do receive such keys
+					}
+				}
+				continue
+			}
+			for i, a := range cs.Instr.Common().Args {
+				nArgs++
+				if kind := nonPersistentKeyType(a); kind != "" {
+					r.Fail(kp("WIRE", fmt.Sprintf("non-persistent-key→%s#%d", FuncName(cs.Callee), i)), "module state lives in committed KV stores only", p.Pos(cs.Instr.Pos()),
+						fmt.Sprintf("%s is given a %s as argument %d: a store opened with it is not committed (memory stores are empty after a restart, transient stores after every block), so state kept there is lost by a node that restarts and kept by one that does not", FuncName(cs.Callee), kind, i))
+				}
+			}
+		}
+	}
+	r.Floor("arguments-to-module-functions-typed", nArgs, 500)
+	r.Floor("control:memory/transient-keys-handed-to-SDK-keepers", nCtl, 2)
+	r.OK(kp("WIRE", "non-persistent-keys#scan"), "module state lives in committed KV stores only", "app/, x/*",
+		fmt.Sprintf("%d arguments of calls into the module's own packages inspected: none is a *MemoryStoreKey or *TransientStoreKey (violations, if any, are listed separately)", nArgs))
+
+	// D2c start-up writes nothing: an sdk.Context (the only way to reach a keeper) or a raw committed store is obtained only
+	// by block processing (baseapp supplies the context) and by the export command. Anything written through a context made
+	// at start-up goes straight into the committed store's working set, outside any block.
+	ctxMakers := []string{"baseapp.BaseApp).NewUncachedContext", "baseapp.BaseApp).NewContext", "types.NewContext",
+		"CommitMultiStore).GetKVStore", "CommitMultiStore).GetCommitKVStore", "CommitMultiStore).GetCommitStore", "CommitMultiStore).GetStore",
+		"MultiStore).GetKVStore", "MultiStore).GetStore"}
+	allowedCtx := map[string]string{
+		"(*app.App).ExportAppStateAndValidators": "genesis export works on a throw-away context of the latest version",
+	}
+	nCtx := 0
+	for _, fn := range p.ModFuncs {
+		if InPkgs(fn, "types/testsuite") {
+			continue
+		}
+		for _, cs := range callSites(fn) {
+			hit := ""
+			for _, m := range ctxMakers {
+				if strings.HasSuffix(cs.Name, m) {
+					hit = m
+				}
+			}
+			if hit == "" || strings.HasSuffix(cs.Name, "types.Context).MultiStore") {
+				continue
+			}
+			// ctx.MultiStore().GetKVStore(key) inside block processing is the store of the supplied context — not a new gateway
+			if strings.HasPrefix(hit, "MultiStore)") {
+				if c, ok := cs.Instr.Common().Value.(*ssa.Call); ok && strings.HasSuffix(calleeName(&c.Call), "types.Context).MultiStore") {
+					continue
+				}
+			}
+			nCtx++
+			key := kp("STATE", "context-created:"+FuncName(fn)+"→"+hit)
+			if why, ok := allowedCtx[FuncName(fn)]; ok {
+				r.OK(key, "only block processing and genesis export obtain a context or a committed store", p.Pos(cs.Instr.Pos()), why)
+			} else {
+				r.Fail(key, "only block processing and genesis export obtain a context or a committed store", p.Pos(cs.Instr.Pos()),
+					fmt.Sprintf("%s calls %s: state written through it bypasses block processing (it is neither part of a block nor rolled back with one), so a node that ran this code and one that did not disagree", FuncName(fn), cs.Name))
+			}
+		}
+	}
+	r.Floor("control:context-creation-sites", nCtx, 1)
+
 	// D3 no file / network I/O in scope
 	bad := ""
 	for _, fn := range scope {
@@ -176,4 +258,42 @@ func constructorField(p *Prog, callee string, arg int) string {
 		}
 	}
 	return ""
+}
+
+// nonPersistentKeyType reports whether v (looking through interface conversions) is a *MemoryStoreKey or *TransientStoreKey,
+// or a map/slice of them.
+func nonPersistentKeyType(v ssa.Value) string {
+	for {
+		switch x := v.(type) {
+		case *ssa.MakeInterface:
+			v = x.X
+			continue
+		case *ssa.ChangeInterface:
+			v = x.X
+			continue
+		}
+		break
+	}
+	var walk func(t types.Type, d int) string
+	walk = func(t types.Type, d int) string {
+		if d > 3 {
+			return ""
+		}
+		switch x := t.(type) {
+		case *types.Pointer:
+			return walk(x.Elem(), d+1)
+		case *types.Map:
+			return walk(x.Elem(), d+1)
+		case *types.Slice:
+			return walk(x.Elem(), d+1)
+		case *types.Named:
+			if x.Obj().Pkg() != nil && strings.HasSuffix(x.Obj().Pkg().Path(), "store/types") {
+				if x.Obj().Name() == "MemoryStoreKey" || x.Obj().Name() == "TransientStoreKey" {
+					return "*" + x.Obj().Name()
+				}
+			}
+		}
+		return ""
+	}
+	return walk(v.Type(), 0)
 }
